@@ -714,6 +714,9 @@ func runCKKS(c CKKSCase, rec *h.Rec) error {
 				switch {
 				case !c.Batched && !c.NTT:
 					key = "C07:ckks:roundtrip:coeffs:IsNTT=false" // Encode applies the NTT whatever pt.IsNTT says, Decode honours the flag
+				case c.Batched && !e.arb && unreduced && c.NTT:
+					// SingleFloat64ToFixedPointCRT leaves positive values >= q_i unreduced; harmless only when a forward NTT follows
+					key = "C07:ckks:Encode:float64:unreduced-positive-coefficients"
 				case c.Batched && ci && slots == 1 && c.NTT:
 					key = "C07:ckks:Encode:slots:ci:single-slot" // NTT of dimension 1 in the conjugate-invariant ring
 				case !c.NTT && e.arb && unreduced:
